@@ -734,3 +734,272 @@ End RunSafe.
 
 Theorem safe_pipeline_records_safe : forall p, pipeline_safe p = true -> records_safe p.
 Proof. intros p H x Hx i f Hlen. rewrite (safe_pipeline_runs x Hx p i f H Hlen). reflexivity. Qed.
+
+(* ================================================================ D. every reference site of an accepted file is valid *)
+
+Lemma Forall_flat_map_intro : forall A B (P : B -> Prop) (f : A -> list B) l,
+  (forall a, In a l -> Forall P (f a)) -> Forall P (flat_map f l).
+Proof.
+  intros A B P f l. induction l as [|a l IH]; intro H; simpl; [constructor|].
+  apply Forall_app. split; [apply H; left; reflexivity|apply IH; intros; apply H; right; assumption].
+Qed.
+
+Lemma check_field_known : forall sch n u, check_field sch n = Ok u -> known sch n.
+Proof. intros sch n u H. destruct (check_field_ok _ _ _ H) as [i Hi]. apply locate_spec in Hi. apply Hi. Qed.
+
+Lemma check_fields_known : forall sch l u, check_fields sch l = Ok u -> Forall (known sch) l.
+Proof.
+  induction l as [|n r IH]; intros u H; simpl in H; [constructor|]. binds H.
+  constructor; [eapply check_field_known; eauto|eapply IH; eauto].
+Qed.
+
+Lemma check_key_known : forall sch n u, check_key sch n = Ok u -> known sch n.
+Proof. intros sch n u H. destruct (check_key_ok _ _ _ H) as [_ [i Hi]]. apply locate_spec in Hi. apply Hi. Qed.
+
+Lemma Forall_map_ref : forall sch (mk : bytes -> reference) (P : bytes -> Prop) l,
+  (forall n, P n -> ref_valid sch (mk n)) -> Forall P l -> Forall (ref_valid sch) (map mk l).
+Proof. intros sch mk P l H F. induction F; simpl; constructor; auto. Qed.
+
+Lemma refs_matcher_valid : forall sch m, verify_match sch m = Ok tt -> matcher_decodes m = true ->
+  Forall (ref_valid sch) (refs_matcher m).
+Proof.
+  intros sch m H Hd. unfold verify_match in H. binds H. apply check_ok in Hb.
+  unfold refs_matcher. constructor; [simpl; destruct (is_nil m); [discriminate|reflexivity]|].
+  unfold matcher_decodes in Hd. apply andb_true_iff in Hd. destruct Hd as [Hd _]. clear Hb.
+  induction m as [|e r IH]; simpl in *; [constructor|]. binds H. apply andb_true_iff in Hd. destruct Hd as [Hd1 Hd2].
+  constructor; [simpl; eapply check_field_known; eauto|].
+  constructor; [|apply IH; assumption]. simpl. apply check_ok in Hb0. unfold mentry_decodes in Hd1.
+  split; intro E; rewrite E in *; discriminate.
+Qed.
+
+Lemma refs_addfields_valid : forall sch fields, verify_addfields fq sch fields = Ok tt ->
+  Forall (ref_valid sch) (flat_map (fun kt => [RefField (fst kt); RefTemplate sch (snd kt)]) fields).
+Proof.
+  intros sch fields. induction fields as [|[k t] r IH]; intro H; simpl in *; [constructor|]. binds H.
+  constructor; [simpl; eapply check_field_known; eauto|]. constructor; [|apply IH; assumption].
+  simpl. unfold check_template in Hb0. simpl in Hb0. binds Hb0. eapply new_expander_valid; eauto.
+Qed.
+
+Lemma verify_captures_known : forall sch key names, verify_captures fq sch key names = Ok tt ->
+  Forall (known sch) (filter (fun n => negb (is_nil n)) names).
+Proof.
+  intros sch key names. induction names as [|n r IH]; intro H; simpl in *; [constructor|]. binds H.
+  destruct (is_nil n); simpl; [apply IH; assumption|]. constructor; [eapply check_field_known; eauto|apply IH; assumption].
+Qed.
+
+Lemma num_percent : forall n, num_ok n = true -> (1 <=? num_val n) && (num_val n <=? 100) = true ->
+  exists z, n = NumOk z /\ 1 <= z <= 100.
+Proof. intros [z|] H1 H2; [|discriminate]. simpl in H2. exists z. split; [reflexivity|lia]. Qed.
+
+Lemma num_positive : forall n, (0 <? num_val n) = true -> exists z, n = NumOk z /\ 0 < z.
+Proof. intros [z|] H; simpl in H; [|discriminate]. exists z. split; [reflexivity|lia]. Qed.
+
+Definition valid_t (t : transform) : Prop :=
+  forall sch, transform_decodes t = true -> verify_t fq sch t = Ok tt -> Forall (ref_valid sch) (refs_t sch t).
+Definition valid_tl (l : tlist) : Prop :=
+  forall sch, tlist_decodes l = true -> verify_tl fq sch l = Ok tt -> Forall (ref_valid sch) (refs_tl sch l).
+Definition valid_cl (l : clist) : Prop :=
+  forall sch, clist_decodes l = true -> verify_cl fq sch l = Ok tt -> Forall (ref_valid sch) (refs_cl sch l).
+
+Ltac feq := rewrite ?refs_t_block, ?refs_t_if, ?refs_t_switch, ?refs_tl_cons, ?refs_cl_cons; cbn [refs_t refs_tl refs_cl].
+Ltac nonempty_goal := simpl; match goal with H : check (negb ?b) _ = Ok _ |- ?b = false => apply check_ok in H; destruct b; [discriminate|reflexivity] end.
+
+Lemma tl_empty_false : forall l u, check (match l with TNil => false | _ => true end) err_empty = Ok u -> tl_empty l = false.
+Proof. intros [|t ts] u H; simpl in *; [discriminate|reflexivity]. Qed.
+
+Lemma transform_refs_valid : (forall t, valid_t t) /\ (forall l, valid_tl l) /\ (forall l, valid_cl l).
+Proof.
+  apply transform_mutind; unfold valid_t, valid_tl, valid_cl.
+  - (* TAddFields *) intros fields sch Hd H. veq H. binds H. feq.
+    constructor; [nonempty_goal|]. apply refs_addfields_valid. assumption.
+  - (* TBlock *) intros steps IH sch Hd H. veq H. deq Hd. binds H. feq.
+    constructor; [simpl; eapply tl_empty_false; eauto|]. apply IH; assumption.
+  - (* TDelFields *) intros keys sch Hd H. veq H. binds H. feq.
+    constructor; [nonempty_goal|]. eapply Forall_map_ref; [|eapply check_fields_known; eauto]. auto.
+  - (* TDrop *) intros m pct label sch Hd H. veq H. deq Hd. binds H. split_and Hd. feq.
+    apply Forall_app. split; [apply refs_matcher_valid; assumption|].
+    apply check_ok in Hb0. constructor; [simpl; apply num_percent; assumption|].
+    constructor; [nonempty_goal|constructor].
+  - (* TExtract *) intros key pattern re sch Hd H. veq H. binds H. feq.
+    destruct re as [names|]; [|discriminate].
+    constructor; [simpl; eapply check_key_known; eauto|]. constructor; [nonempty_goal|].
+    constructor; [reflexivity|].
+    eapply Forall_map_ref; [|eapply verify_captures_known; eauto]. auto.
+  - (* TExtractSpecial *) intros pos key pattern maxlen dest sch Hd H. veq H. binds H. feq.
+    destruct (verify_special_pattern_ok _ _ _ Hb1) as [ex Hex]. apply check_ok in Hb2.
+    constructor; [simpl; eapply check_key_known; eauto|].
+    constructor; [simpl; eapply special_pattern_valid_of_ok; eauto|].
+    constructor; [simpl; apply num_positive; assumption|].
+    constructor; [simpl; eapply check_key_known; eauto|constructor].
+  - (* TIf *) intros m then_ IH sch Hd H. veq H. deq Hd. binds H. split_and Hd. feq.
+    apply Forall_app. split; [apply refs_matcher_valid; assumption|].
+    constructor; [simpl; eapply tl_empty_false; eauto|]. apply IH; assumption.
+  - (* TMapValue *) intros key mapping default sch Hd H. veq H. binds H. feq.
+    constructor; [simpl; eapply check_key_known; eauto|]. constructor; [nonempty_goal|constructor].
+  - (* TParseTime *) intros key label sch Hd H. veq H. binds H. feq.
+    constructor; [simpl; eapply check_key_known; eauto|]. constructor; [nonempty_goal|constructor].
+  - (* TRedactEmail *) intros key label sch Hd H. veq H. binds H. feq.
+    constructor; [simpl; eapply check_key_known; eauto|]. constructor; [nonempty_goal|constructor].
+  - (* TReplace *) intros key pattern re_ok repl sch Hd H. veq H. binds H. feq.
+    constructor; [simpl; eapply check_key_known; eauto|]. constructor; [nonempty_goal|].
+    constructor; [simpl; eapply check_ok; eauto|constructor].
+  - (* TSwitch *) intros cases IH sch Hd H. veq H. deq Hd. binds H. feq.
+    constructor; [simpl; apply check_ok in Hb; destruct cases; [discriminate|reflexivity]|]. apply IH; assumption.
+  - (* TTruncate *) intros key maxlen suffix sch Hd H. veq H. binds H. feq. apply check_ok in Hb0.
+    constructor; [simpl; eapply check_key_known; eauto|].
+    constructor; [simpl; apply num_positive; assumption|]. constructor; [nonempty_goal|constructor].
+  - (* TUnescape *) intros key sch Hd H. veq H. feq. constructor; [simpl; eapply check_key_known; eauto|constructor].
+  - (* TUnknown *) intros sch Hd H. deq Hd. discriminate.
+  - (* TNil *) intros sch Hd H. feq. constructor.
+  - (* TCons *) intros t IHt ts IHts sch Hd H. veq H. deq Hd. binds H. split_and Hd. feq.
+    apply Forall_app. split; [apply IHt; assumption|apply IHts; assumption].
+  - (* CNil *) intros sch Hd H. feq. constructor.
+  - (* CCons *) intros m then_ IHt cs IHcs sch Hd H. veq H. deq Hd. binds H. split_and Hd. feq.
+    apply Forall_app. split; [apply refs_matcher_valid; assumption|].
+    constructor; [simpl; eapply tl_empty_false; eauto|].
+    apply Forall_app. split; [apply IHt; assumption|apply IHcs; assumption].
+Qed.
+
+Lemma refs_tl_valid : forall l sch, tlist_decodes l = true -> verify_tl fq sch l = Ok tt -> Forall (ref_valid sch) (refs_tl sch l).
+Proof. apply transform_refs_valid. Qed.
+
+(* rewriter chains *)
+Lemma verify_rewriters_valid : forall sch l, verify_rewriters sch l = Ok tt ->
+  rewriters_valid sch l /\ Forall (ref_valid sch) (flat_map (fun r => match r with RwInline f => [RefField f] | _ => [] end) l).
+Proof.
+  intros sch l. induction l as [|r rest IH]; intro H; simpl in H.
+  - split; [left; reflexivity|constructor].
+  - binds H. destruct (IH H) as [V1 V2].
+    destruct r as [|field| |]; simpl in Hb.
+    + apply check_ok in Hb. destruct rest; [|discriminate]. split; [|constructor].
+      right. exists [], RwCopy. simpl. auto.
+    + binds Hb. apply check_ok in Hb0. destruct (check_key_ok _ _ _ Hb) as [Hne [i Hi]]. apply locate_spec in Hi.
+      split; [|simpl; constructor; [apply Hi|assumption]].
+      destruct V1 as [E|[inl [last [E [Hl Hf]]]]]; [subst; discriminate|].
+      right. exists (field :: inl), last. subst rest. simpl. split; [reflexivity|]. split; [assumption|].
+      constructor; [split; [assumption|apply Hi]|assumption].
+    + apply check_ok in Hb. destruct rest; [|discriminate]. split; [|constructor].
+      right. exists [], RwUnescape. simpl. auto.
+    + discriminate.
+Qed.
+
+Lemma big_quantity : forall b, big_ok b = true -> negb (big_val b =? 0)%N = true -> exists n, b = BigOk n /\ (0 < n)%N.
+Proof. intros [n|] H1 H2; [|discriminate]. simpl in H2. exists n. split; [reflexivity|lia]. Qed.
+
+Lemma mode_known_cases : forall m, mode_known m = true -> m = mode_forward \/ m = mode_packed \/ m = mode_compressed.
+Proof.
+  intros m H. unfold mode_known in H. apply orb_true_iff in H. destruct H as [H|H]; [apply orb_true_iff in H; destruct H as [H|H]|];
+    apply bytes_eqb_eq in H; auto.
+Qed.
+
+Lemma refs_output_valid : forall sch o, output_decodes o = true -> verify_output fq sch o = Ok tt ->
+  Forall (ref_valid sch) (refs_output o).
+Proof.
+  intros sch o Hd H. destruct o as [env hidden rewrites mode addr ok dur|hidden addr ok dur| |]; simpl in H, Hd.
+  - binds H. binds Hb0. split_and Hd. unfold refs_output.
+    constructor; [nonempty_goal|].
+    apply Forall_app. split; [eapply Forall_map_ref; [|eapply check_fields_known; eauto]; auto|].
+    apply Forall_app. split; [eapply Forall_map_ref; [|eapply check_fields_known; eauto]; auto|].
+    apply Forall_app. split.
+    + apply Forall_flat_map_intro. intros fr Hin.
+      destruct (verify_rewrite_fields_in _ _ Hb1 fr Hin) as [F1 F2]. destruct (verify_rewriters_valid _ _ F2) as [V1 V2].
+      constructor; [simpl; eapply check_field_known; eauto|]. constructor; [exact V1|exact V2].
+    + apply check_ok in Hb3. apply check_ok in Hb5. apply check_ok in H.
+      constructor; [simpl; apply mode_known_cases; assumption|]. constructor; [exact Hb5|].
+      constructor; [simpl; apply big_quantity; assumption|constructor].
+  - binds H. apply check_ok in Hb1. apply check_ok in H. unfold refs_output.
+    apply Forall_app. split; [eapply Forall_map_ref; [|eapply check_fields_known; eauto]; auto|].
+    constructor; [exact Hb1|]. constructor; [simpl; apply big_quantity; assumption|constructor].
+  - discriminate.
+  - discriminate.
+Qed.
+
+Lemma refs_buffer_valid : forall sch b, buffer_decodes b = true -> verify_buffer fq b = Ok tt -> Forall (ref_valid sch) (refs_buffer b).
+Proof.
+  intros sch [root size| |] Hd H; simpl in *; try discriminate. binds H. apply check_ok in H.
+  constructor; [nonempty_goal|]. constructor; [simpl; apply big_quantity; assumption|constructor].
+Qed.
+
+Lemma refs_pairs_valid : forall sch l seen,
+  forallb (fun p => buffer_decodes (p_buffer p) && output_decodes (p_output p)) l = true ->
+  verify_pairs fq sch seen l = Ok tt ->
+  Forall (ref_valid sch) (flat_map (fun p => refs_buffer (p_buffer p) ++ refs_output (p_output p)) l).
+Proof.
+  intros sch l. induction l as [|p r IH]; intros seen Hd H; simpl in *; [constructor|]. binds H. split_and Hd.
+  unfold verify_pair in Hb0. simpl in Hb0. binds Hb0.
+  apply Forall_app. split; [|eapply IH; eauto].
+  apply Forall_app. split; [apply refs_buffer_valid; assumption|apply refs_output_valid; assumption].
+Qed.
+
+Lemma refs_inputs_valid : forall sch l, forallb input_decodes l = true -> verify_inputs fq sch l = Ok tt ->
+  Forall (ref_valid sch) (flat_map (refs_input sch) l).
+Proof.
+  intros sch l. induction l as [|i r IH]; intros Hd H; simpl in *; [constructor|]. binds H. split_and Hd.
+  apply Forall_app. split; [|apply IH; assumption].
+  destruct i as [addr ok levels ex|]; simpl in Hb, Hd; [|discriminate]. binds Hb. unfold refs_input.
+  unfold syslog_parser_check in Hb3. binds Hb3. apply check_ok in Hb0. apply check_ok in Hb1. apply check_ok in Hb4.
+  constructor; [exact Hb0|].
+  constructor; [simpl; destruct levels; [discriminate|]; cbn [is_nil orb] in Hb4; apply Nat.eqb_eq in Hb4; assumption|].
+  constructor; [simpl; eapply tl_empty_false; eauto|].
+  apply Forall_app. split; [eapply Forall_map_ref; [|eapply check_fields_known; eauto]; auto|].
+  apply refs_tl_valid; assumption.
+Qed.
+
+Lemma label_name_chars : forall n, label_name_ok n = true -> label_chars n.
+Proof. intros n H. unfold label_name_ok in H. unfold label_chars. rewrite forallb_forall in H. apply Forall_forall. assumption. Qed.
+
+Lemma key_fields_valid : forall sch keys, check_fields sch keys = Ok tt -> check_label_fields keys [] = Ok tt ->
+  Forall (ref_valid sch) (map RefKeyField keys).
+Proof.
+  intros sch keys H1 H2. apply check_fields_known in H1. apply check_label_fields_ok in H2.
+  induction keys as [|k r IH]; simpl; [constructor|]. inversion H1; subst. inversion H2; subst.
+  constructor; [simpl; split; [assumption|apply label_name_chars; assumption]|apply IH; assumption].
+Qed.
+
+Lemma refs_orch_valid : forall sch o keys, verify_orch fq sch o = Ok keys -> Forall (ref_valid sch) (refs_orch o).
+Proof.
+  intros sch o keys0 H. destruct o as [keys tag|tag| |]; simpl in H; try discriminate.
+  - binds H. unfold refs_orch. constructor; [nonempty_goal|].
+    apply Forall_app. split; [apply key_fields_valid; assumption|].
+    constructor; [nonempty_goal|]. constructor; [|constructor].
+    simpl. unfold check_template in Hb3. simpl in Hb3. binds Hb3. eapply new_expander_valid; eauto.
+  - binds H. unfold refs_orch. constructor; [nonempty_goal|]. constructor; [|constructor].
+    simpl. unfold check_template in Hb0. simpl in Hb0. binds Hb0. eapply new_expander_valid; eauto.
+Qed.
+
+Theorem sites_complete_lemma : forall c, verify fq c = Ok tt -> Forall (ref_valid (c_fields c)) (refs c).
+Proof.
+  intros c H. unfold verify in H. binds H. apply check_ok in Hb.
+  unfold config_decodes in Hb.
+  assert (Hdec : forallb input_decodes (c_inputs c) = true /\ tlist_decodes (c_transforms c) = true /\
+                 forallb (fun p => buffer_decodes (p_buffer p) && output_decodes (p_output p)) (c_pairs c) = true).
+  { split_and Hb. auto. }
+  destruct Hdec as [Hdi [Hdt Hdp]]. clear Hb.
+  rename Hb1 into Hinputs, Hb2 into Horch, Hb3 into Hmk, Hb4 into Htf, Hb5 into Hne, H into Hpairs.
+  unfold refs.
+  apply Forall_app. split; [apply refs_inputs_valid; assumption|].
+  apply Forall_app. split; [eapply refs_orch_valid; eauto|].
+  unfold verify_metric_keys in Hmk. simpl in Hmk. binds Hmk.
+  constructor; [nonempty_goal|].
+  apply Forall_app. split; [apply key_fields_valid; assumption|].
+  apply Forall_app. split; [apply refs_tl_valid; assumption|].
+  simpl in Hne. constructor; [nonempty_goal|]. eapply refs_pairs_valid; eauto.
+Qed.
+
+(* ================================================================ the property *)
+
+Theorem verify_ok_construct_ok_lemma : forall c, verify fq c = Ok tt ->
+  exists p, construct fq c = Ok p /\ pipeline_safe p = true /\ records_safe p.
+Proof.
+  intros c H. destruct (verify_ok_constructs c H) as [p [H1 [H2 _]]].
+  exists p. split; [assumption|]. split; [assumption|]. apply safe_pipeline_records_safe. assumption.
+Qed.
+
+(* what the correspondence check prints for the model is never a panic verdict *)
+Theorem verdict_never_panics_lemma : forall c, is_vpanic (snd (verdict fq c)) = false.
+Proof.
+  intro c. unfold verdict. destruct (verify fq c) as [u|e|s] eqn:E.
+  - destruct u. destruct (verify_ok_constructs c E) as [p [H1 [H2 _]]]. rewrite H1, H2. reflexivity.
+  - reflexivity.
+  - pose proof (verify_total_lemma c) as T. rewrite E in T. discriminate.
+Qed.
